@@ -90,7 +90,15 @@ class HierDictDocument(DictDocument):
 
             class_name = self.get_class_name(body_class)
             if self.ignore_wrappers:
-                doc = doc.get(class_name, None)
+                if message is self.REQUEST and isinstance(doc, dict) \
+                                                              and len(doc) == 1:
+                    # the only key is the method name the request was
+                    # dispatched by. it's not the type name for bare methods,
+                    # and it's not necessarily of the type get_class_name()
+                    # returns (e.g. bytes vs str keys in msgpack).
+                    doc, = doc.values()
+                else:
+                    doc = doc.get(class_name, None)
 
             result_message = self._doc_to_object(ctx, body_class, doc,
                                                                  self.validator)
